@@ -180,7 +180,7 @@ Definition face_id3 (n d : N) : prog N :=
   if (lb =? 0) || (rb =? 0) then
     lb0 <- rdB 0 d ;;
     rb0 <- rdB 1 b3 ;;
-    r2 <- face_walk (fuel3 n) 0 1 lb0 rb0 m mn ;;
+    r2 <- face_walk (fuel3 n) 0 1 lb0 rb0 m (min_nz (min_nz mn lb0) rb0) ;;
     let '(_, _, _, mn') := r2 in Ret mn'
   else Ret mn.
 
